@@ -429,7 +429,7 @@ def pair_unpack_lint(repo, rep, rule, modules):
                 if not (isinstance(st, ast.Assign) and isinstance(st.targets[0], ast.Tuple) and len(st.targets[0].elts) == 2):
                     continue
                 src = str(norm(st.value)).replace("()", "")
-                mm = _re.search(r"(?:_|\\b)(xy|wh|hw)$", src)
+                mm = _re.search(r"(?:_|\b)(xy|wh|hw)$", src)
                 if not mm:
                     continue
                 want = ["H", "W"] if mm.group(1) == "hw" else ["W", "H"]
@@ -440,4 +440,56 @@ def pair_unpack_lint(repo, rep, rule, modules):
                 bad = [(str(norm(e)), g, w) for e, g, w in zip(st.targets[0].elts, got, want) if g is not None and g != w]
                 rep.check(not bad, rule, f"ethosu/vela/{mname}.py:{q}", f"`{str(norm(st))[:70]}` unpacks {mm.group(1)} in that order",
                           "; ".join(f"`{nm}` ({g}) takes the {w} component" for nm, g, w in bad))
+    return n
+
+
+def operand_stem_lint(repo, rep, rule, modules):
+    """In the command-stream level modules a parameter named after the input (ifm / ifm2) or the output (ofm) feature map
+    receives a value named after the same side: `f(arch, cur_ofm_rect, cur_ifm_rect, ...)` for `def f(arch, ifm, ofm, ...)`
+    swaps the two rectangles. Callees are resolved by unique simple name; only plain names / attribute chains that name
+    exactly one side are compared."""
+    import re as _re
+
+    def side(name):
+        t = set(_re.split(r"[_.\[\]() ]+", name.lower()))
+        s = set()
+        if "ifm" in t or "ifm2" in t:
+            s.add("in")
+        if "ofm" in t:
+            s.add("out")
+        return s
+
+    idx = {}
+    for m in repo.core_modules():
+        for q, fn in m.functions.items():
+            nm = q.split(".")[-1]
+            if nm == "__init__" and "." in q:
+                nm = q.split(".")[-2]
+            idx.setdefault(nm, []).append((m, q, fn))
+    n = 0
+    for mname in modules:
+        m = repo.mod(mname)
+        for q, fn in m.functions.items():
+            for c in ast.walk(fn):
+                if not isinstance(c, ast.Call):
+                    continue
+                cn = call_name(c)
+                if not cn or len(idx.get(cn.split(".")[-1], ())) != 1:
+                    continue
+                tm, tq, tfn = idx[cn.split(".")[-1]][0]
+                params = [a.arg for a in tfn.args.args]
+                if params and params[0] in ("self", "cls"):
+                    params = params[1:]
+                pairs = [(params[i], a) for i, a in enumerate(c.args) if i < len(params) and not isinstance(a, ast.Starred)]
+                pairs += [(k.arg, k.value) for k in c.keywords if k.arg in params]
+                for p, a in pairs:
+                    ps = side(p)
+                    if len(ps) != 1 or not isinstance(a, (ast.Name, ast.Attribute)):
+                        continue
+                    as_ = side(str(norm(a)))
+                    if len(as_) != 1:
+                        continue
+                    n += 1
+                    rep.check(ps == as_, rule, f"ethosu/vela/{mname}.py:{q}", f"{str(norm(c))[:70]}: parameter `{p}` of {tq} receives the {'input' if ps == {'in'} else 'output'} side",
+                              f"receives `{str(norm(a))}`: input and output feature map are exchanged at this call")
     return n
